@@ -89,15 +89,15 @@ Qed.
 (* Route equivalence, instantiated: two pure routes to the same action set serve the same catchment valuation. *)
 Theorem routes_serve_the_same_catchment_valuation :
   forall (d : C.dataset) errs (s s1 s2 : state valuation) (rs1 rs2 : list (request valuation)) m,
-    reachable s -> st_model s = Some m -> m_desc m = engine_desc d errs -> tidy5 (m_attrs m) ->
+    reachable s -> st_model s = Some m -> m_desc m = engine_desc d errs ->
     forallb wf_request rs1 = true -> forallb pure_route rs1 = true -> run s rs1 = Ok s1 -> wrote s rs1 = true ->
     forallb wf_request rs2 = true -> forallb pure_route rs2 = true -> run s rs2 = Ok s2 -> wrote s rs2 = true ->
     option_map m_bits (st_model s1) = option_map m_bits (st_model s2) ->
     exists sn1 sn2, st_snap s1 = Some sn1 /\ st_snap s2 = Some sn2 /\ same_representation sn1 sn2
       /\ sn_vars sn1 = catch_eval d (sn_bits sn1) /\ sn_vars sn2 = catch_eval d (sn_bits sn1).
 Proof.
-  intros d errs s s1 s2 rs1 rs2 m Hr Em Ed T5 Hw1 Hp1 Hr1 Hwr1 Hw2 Hp2 Hr2 Hwr2 Hb.
-  destruct (route_equivalence s s1 s2 rs1 rs2 m Hr Em T5 Hw1 Hp1 Hr1 Hwr1 Hw2 Hp2 Hr2 Hwr2 Hb) as (sn1 & sn2 & S1 & S2 & SR).
+  intros d errs s s1 s2 rs1 rs2 m Hr Em Ed Hw1 Hp1 Hr1 Hwr1 Hw2 Hp2 Hr2 Hwr2 Hb.
+  destruct (route_equivalence_full s s1 s2 rs1 rs2 Hr Hw1 Hp1 Hr1 Hwr1 Hw2 Hp2 Hr2 Hwr2 Hb) as (sn1 & sn2 & S1 & S2 & SR).
   exists sn1, sn2. split; [exact S1|]. split; [exact S2|]. split; [exact SR|].
   pose proof (reachable_Inv s Hr) as HI.
   destruct (pure_run rs1 s s1 HI Hw1 Hp1 Hr1) as [[_ Hc]|(_ & ma & m1 & Ema & Em1 & Esn1 & W1)]; [congruence|].
